@@ -1146,12 +1146,9 @@ func (ctx *internalContext) Watch(options WatchOptions) error {
 func (ctx *internalContext) Cancel() {
 	ctx.mutex.Lock()
 
-	// Ignore disposed contexts
-	if ctx.didDispose {
-		ctx.mutex.Unlock()
-		return
-	}
-
+	// Note: Don't ignore disposed contexts here. If "Dispose" is still waiting
+	// for the active build to finish, "Cancel" must not return before that build
+	// has ended either. If there is no active build, this is a no-op anyway.
 	build := ctx.activeBuild
 	ctx.mutex.Unlock()
 
@@ -1168,7 +1165,13 @@ func (ctx *internalContext) Dispose() {
 	// Only dispose once
 	ctx.mutex.Lock()
 	if ctx.didDispose {
+		// Another call to "Dispose" may still be waiting for the active build to
+		// finish. Don't return before that build has ended in that case.
+		build := ctx.activeBuild
 		ctx.mutex.Unlock()
+		if build != nil {
+			build.waitGroup.Wait()
+		}
 		return
 	}
 	ctx.didDispose = true
